@@ -31,6 +31,7 @@ type vrMonTarget struct {
 	mu                  sync.Mutex
 	deliveries          []*vrMonDelivery
 	bodyErr, commitErr  error
+	abortErr            error
 }
 
 func (t *vrMonTarget) Start(ctx context.Context, msgMeta *module.MsgMetadata, mailFrom string) (module.Delivery, error) {
@@ -65,7 +66,7 @@ func (d *vrMonDelivery) Abort(ctx context.Context) error {
 		d.afterUse++
 	}
 	d.aborts++
-	return nil
+	return d.t.abortErr
 }
 func (d *vrMonDelivery) Commit(ctx context.Context) error {
 	d.t.mu.Lock()
@@ -163,23 +164,26 @@ func TestVerifReplaySessionTypestate(t *testing.T) {
 		name               string
 		bodyErr, commitErr error
 		steps              []vrStep
+		abortErr           error
 	}
 	m := func(a string) vrStep { return vrStep{"MAIL", a} }
 	r := func(a string) vrStep { return vrStep{"RCPT", a} }
 	data, loop, rset := vrStep{"DATA", ""}, vrStep{"DATALOOP", ""}, vrStep{"RSET", ""}
 	scens := []scen{
-		{"plain", nil, nil, []vrStep{m("s@EXAMPLE.org"), r("a@example.com"), data}},
-		{"body failure", bodyErr, nil, []vrStep{m("s@example.org"), r("a@example.com"), data}},
-		{"commit failure", nil, commitErr, []vrStep{m("s@example.org"), r("a@example.com"), data}},
-		{"routing loop refused", nil, nil, []vrStep{m("s@example.org"), r("a@example.com"), loop}},
-		{"second MAIL without RSET", nil, nil, []vrStep{m("s@example.org"), r("a@example.com"), m("t@example.net"), r("b@example.com"), data}},
-		{"RSET then disconnect inside a transaction", nil, nil, []vrStep{m("s@example.org"), r("a@example.com"), rset, m("s@example.org"), r("a@example.com")}},
-		{"two messages, first fails", bodyErr, nil, []vrStep{m("s@example.org"), r("a@example.com"), data, m("s@example.org"), r("a@example.com"), data}},
+		{"plain", nil, nil, []vrStep{m("s@EXAMPLE.org"), r("a@example.com"), data}, nil},
+		{"body failure", bodyErr, nil, []vrStep{m("s@example.org"), r("a@example.com"), data}, nil},
+		{"commit failure", nil, commitErr, []vrStep{m("s@example.org"), r("a@example.com"), data}, nil},
+		{"routing loop refused", nil, nil, []vrStep{m("s@example.org"), r("a@example.com"), loop}, nil},
+		{"second MAIL without RSET", nil, nil, []vrStep{m("s@example.org"), r("a@example.com"), m("t@example.net"), r("b@example.com"), data}, nil},
+		{"RSET then disconnect inside a transaction", nil, nil, []vrStep{m("s@example.org"), r("a@example.com"), rset, m("s@example.org"), r("a@example.com")}, nil},
+		{"RSET with a failing Abort", nil, nil, []vrStep{m("s@example.org"), r("a@example.com"), rset}, errors.New("abort failed")},
+		{"failed DATA with a failing Abort", bodyErr, nil, []vrStep{m("s@example.org"), r("a@example.com"), data}, errors.New("abort failed")},
+		{"two messages, first fails", bodyErr, nil, []vrStep{m("s@example.org"), r("a@example.com"), data, m("s@example.org"), r("a@example.com"), data}, nil},
 	}
 	bad := 0
 	for _, deferred := range []bool{false, true} {
 		for _, sc := range scens {
-			tgt := &vrMonTarget{bodyErr: sc.bodyErr, commitErr: sc.commitErr}
+			tgt := &vrMonTarget{bodyErr: sc.bodyErr, commitErr: sc.commitErr, abortErr: sc.abortErr}
 			replies := vrRun(t, deferred, tgt, sc.steps)
 			var problems []string
 			for _, e := range replies {
